@@ -202,3 +202,71 @@ Example ex_text : list N := [108; 101; 116; 32; 120; 32; 61; 32; 34; 233; 8364; 
 Example ex_tokenizes : option_map (fun toks => spans toks ex_text 0%N) (tokenize ex_text)
   = Some [(20, 0, 3); (0, 3, 4); (26, 4, 5); (0, 5, 6); (48, 6, 7); (0, 7, 8); (29, 8, 15); (40, 15, 16)]%N.
 Proof. vm_compute. reflexivity. Qed.
+
+(** * maximal munch: the token chosen is a longest match, and the first kind among the longest *)
+Definition pick (t : list N) (acc : option (N * nat)) (k : N) : option (N * nat) :=
+  match match_kind k t with
+  | Some (S n) => match acc with
+                  | Some (_, m) => if Nat.ltb m (S n) then Some (k, S n) else acc
+                  | None => Some (k, S n)
+                  end
+  | _ => acc
+  end.
+
+Lemma best_fold t : best t = fold_left (pick t) (map N.of_nat (List.seq 0 NKINDS)) None.
+Proof. reflexivity. Qed.
+
+(** invariant of the scan after the kinds [0 .. j-1] *)
+Definition scan_ok (t : list N) (j : nat) (acc : option (N * nat)) : Prop :=
+  match acc with
+  | None => forall k n, k < j -> match_kind (N.of_nat k) t = Some n -> n = 0
+  | Some (k0, n0) =>
+      exists c, k0 = N.of_nat c /\ c < j /\ 1 <= n0 /\ match_kind k0 t = Some n0 /\
+      (forall k n, k < j -> match_kind (N.of_nat k) t = Some n -> n <= n0) /\
+      (forall k n, k < c -> match_kind (N.of_nat k) t = Some n -> n < n0)
+  end.
+
+Lemma pick_ok t j acc : scan_ok t j acc -> scan_ok t (S j) (pick t acc (N.of_nat j)).
+Proof.
+  intros H. unfold pick. destruct (match_kind (N.of_nat j) t) as [[|n]|] eqn:Em.
+  - destruct acc as [[k0 n0]|]; cbn [scan_ok] in *.
+    + destruct H as (c & -> & Hc & H1 & H2 & H4 & H5). exists c. repeat split; try assumption; try lia.
+      intros k n' Hk Hm. destruct (Nat.eq_dec k j) as [->|Hne]; [rewrite Em in Hm; injection Hm as <-; lia|apply (H4 k n'); [lia|exact Hm]].
+    + intros k n' Hk Hm. destruct (Nat.eq_dec k j) as [->|Hne]; [rewrite Em in Hm; injection Hm as <-; reflexivity|apply (H k n'); [lia|exact Hm]].
+  - destruct acc as [[k0 n0]|]; cbn [scan_ok] in *.
+    + destruct H as (c & -> & Hc & H1 & H2 & H4 & H5). destruct (Nat.ltb_spec n0 (S n)) as [Hlt|Hge]; cbn [scan_ok].
+      * exists j. repeat split; try lia; try assumption.
+        -- intros k n' Hk Hm. destruct (Nat.eq_dec k j) as [->|Hne]; [rewrite Em in Hm; injection Hm as <-; lia|]. specialize (H4 k n' ltac:(lia) Hm). lia.
+        -- intros k n' Hk Hm. specialize (H4 k n' ltac:(lia) Hm). lia.
+      * exists c. repeat split; try assumption; try lia.
+        intros k n' Hk Hm. destruct (Nat.eq_dec k j) as [->|Hne]; [rewrite Em in Hm; injection Hm as <-; lia|apply (H4 k n'); [lia|exact Hm]].
+    + cbn [scan_ok]. exists j. repeat split; try lia; try assumption.
+      * intros k n' Hk Hm. destruct (Nat.eq_dec k j) as [->|Hne]; [rewrite Em in Hm; injection Hm as <-; lia|]. rewrite (H k n' ltac:(lia) Hm). lia.
+      * intros k n' Hk Hm. rewrite (H k n' ltac:(lia) Hm). lia.
+  - destruct acc as [[k0 n0]|]; cbn [scan_ok] in *.
+    + destruct H as (c & -> & Hc & H1 & H2 & H4 & H5). exists c. repeat split; try assumption; try lia.
+      intros k n' Hk Hm. destruct (Nat.eq_dec k j) as [->|Hne]; [rewrite Em in Hm; discriminate Hm|apply (H4 k n'); [lia|exact Hm]].
+    + intros k n' Hk Hm. destruct (Nat.eq_dec k j) as [->|Hne]; [rewrite Em in Hm; discriminate Hm|apply (H k n'); [lia|exact Hm]].
+Qed.
+
+Lemma scan_all t : forall j, scan_ok t j (fold_left (pick t) (map N.of_nat (List.seq 0 j)) None).
+Proof.
+  induction j as [|j IH]; [cbn; intros k n Hk; lia|].
+  rewrite seq_S, map_app, fold_left_app. cbn [map fold_left Nat.add]. apply pick_ok, IH.
+Qed.
+
+(** the token [lex] takes at a position: a longest match of any kind, non-empty, and of the
+    first kind in declaration order among the longest *)
+Theorem best_is_maximal_munch t k0 n0 : best t = Some (k0, n0) ->
+  1 <= n0 /\ match_kind k0 t = Some n0 /\
+  (forall k n, k < NKINDS -> match_kind (N.of_nat k) t = Some n -> n <= n0) /\
+  (forall k n, (N.of_nat k < k0)%N -> match_kind (N.of_nat k) t = Some n -> n < n0).
+Proof.
+  intros H. pose proof (scan_all t NKINDS) as S. rewrite <- best_fold, H in S. cbn [scan_ok] in S.
+  destruct S as (c & -> & Hc & H1 & H2 & H4 & H5). repeat split; try assumption.
+  intros k n Hk Hm. apply (H5 k n); [lia|exact Hm].
+Qed.
+
+(** and no token at all only when no kind matches a non-empty prefix *)
+Theorem best_none t : best t = None -> forall k n, k < NKINDS -> match_kind (N.of_nat k) t = Some n -> n = 0.
+Proof. intros H. pose proof (scan_all t NKINDS) as S. rewrite <- best_fold, H in S. exact S. Qed.
